@@ -10,8 +10,14 @@ MANIFEST = dict(
     design='6/C10')
 
 PROPS = ["Props.C10.C10_metrics_totals_exact", "Props.C10.C10_monitor_totals_exact", "Props.C10.C10_counters_exact_always",
-         "Props.C10.C10_max_load_compare_store_refuted", "Props.C10.C10_min_load_compare_store_refuted"]
-INST = ["Inst_C10.metrics_progs_ok", "Inst_C10.monitor_progs_ok", "Inst_C10.max_update_is_cas_loop", "Inst_C10.min_update_is_cas_loop"]
+         "Props.C10.C10_max_load_compare_store_refuted", "Props.C10.C10_min_load_compare_store_refuted",
+         "Props.C10.C10_results_sequential", "Props.C10.C10_footprint_race_free", "Props.C10.C10_common_lock_orders"]
+INST = ["Inst_C10.metrics_progs_ok", "Inst_C10.monitor_progs_ok", "Inst_C10.max_update_is_cas_loop", "Inst_C10.min_update_is_cas_loop",
+        "Inst_C10.tokenization_contributes", "Inst_C10.parse_contributes", "Inst_C10.globals_ok"]
+# which public operations of the mix touch the state of a package (to aim the race-detector search at a broken table entry)
+PKG_OPS = {"pkg/errors": ["suggest", "parse"], "pkg/sql/ast": ["span", "parse", "extract"], "pkg/metrics": ["metrics", "tokenize", "parse"],
+           "pkg/sql/security": ["scan"], "pkg/linter": ["lint"], "pkg/sql/tokenizer": ["tokenize"], "pkg/sql/parser": ["parse"],
+           "pkg/gosqlx": ["parse", "format", "extract"], "pkg/formatter": ["format"], "pkg/sql/keywords": ["tokenize", "parse"]}
 
 STAT_FIELDS = {  # field of the metrics struct -> key of the harness projection (fields exposed exactly by the snapshots)
     "pkg/metrics": {f: "metrics." + f for f in
@@ -88,11 +94,11 @@ def diagnose(tabs):
 # Coq-side helpers
 
 CASES_HDR = ("From Coq Require Import List ZArith NArith.\nFrom GV Require Import Model.Metrics Gen.MetricsProg.\n"
-             "Import ListNotations.\nLocal Open Scope Z_scope.\n")
+             "Import ListNotations.\n")
 
 
 def zl(xs):
-    return "[" + "; ".join("(%d)" % int(x) for x in xs) + "]"
+    return "[" + "; ".join("(%d)%%Z" % int(x) for x in xs) + "]"
 
 
 def witness_search(tabs, pkg, p, s, role):
@@ -111,7 +117,7 @@ def witness_search(tabs, pkg, p, s, role):
     k = min(8, len(s.get("instrs") or []) + 2)
     body = CASES_HDR
     for i, (a, b, init, want) in enumerate(pairs):
-        body += "Definition w%d := Eval vm_compute in find_bad2 %d%%N (fun _ => (%d)) [%s] %s %s %d (%d).\nPrint w%d.\n" % (
+        body += "Definition w%d := Eval vm_compute in find_bad2 %d%%N (fun _ => (%d)%%Z) [%s] %s %s %d (%d)%%Z.\nPrint w%d.\n" % (
             i, loc, init, sec, zl([a] * nargs), zl([b] * nargs), k, want, i)
     ok, out, err = common.coq_cases("c10_witness", body)
     if not ok:
@@ -162,8 +168,8 @@ def run_seq_correspondence(rp, tabs, rng, n):
         for pkg in sorted({c[0] for c in cs}):
             t = tabs[pkg]
             calls = ["(%s_%s, %s)" % (gen10.short(pkg), p["func"], zl(a + [0] * len(p.get("opaque") or []))) for k, p, a in cs if k == pkg]
-            exp = ["(%d%%N, (%d))" % (t["fid"][f], r["stats"][key]) for f, key in STAT_FIELDS[pkg].items() if f in t["fid"] and key in r["stats"]]
-            init = "(fun l => if N.eqb l %d%%N then (-1) else 0)" % t["fid"].get("minQuerySize", 9999)
+            exp = ["(%d%%N, (%d)%%Z)" % (t["fid"][f], r["stats"][key]) for f, key in STAT_FIELDS[pkg].items() if f in t["fid"] and key in r["stats"]]
+            init = "(fun l => if N.eqb l %d%%N then (-1)%%Z else 0%%Z)" % t["fid"].get("minQuerySize", 9999)
             terms.append(("(%s, [%s], [%s])" % (init, "; ".join(calls), "; ".join(exp)), cs, r, pkg))
     body = CASES_HDR + "Definition cases : list (mem * list (list section * list Z) * list (loc * Z)) := [\n" + ";\n".join(t[0] for t in terms) + "].\n"
     body += "Definition bad := Eval vm_compute in bad_cases (fun c => seq_case_ok (fst (fst c)) (snd (fst c), snd c)) 0%N cases.\nPrint bad.\n"
@@ -220,8 +226,15 @@ def parse_races(stderr):
         frames = re.findall(r"(?m)^\s+(\S+)\(\)\n\s+(\S+?/pkg/\S+?\.go:\d+)", b)
         lib = [(f, w) for f, w in frames if "/pkg/" in w and "/harness-src/" not in w]
         acc = re.findall(r"(?m)^((?:Previous )?(?:[Ww]rite|[Rr]ead) at \S+ by \S+ \S+?):?$", b)
-        out.append({"kind": "data race", "where": sorted({re.sub(r"^.*?/pkg/", "pkg/", w) for _, w in lib})[:4],
-                    "funcs": sorted({f.split("/")[-1] for f, _ in lib})[:4], "accesses": acc[:2]})
+        def uniq(xs):
+            seen, o = set(), []
+            for x in xs:
+                if x not in seen:
+                    seen.add(x); o.append(x)
+            return o
+        # frames are innermost first: the first library frame of each stack is the access site
+        out.append({"kind": "data race", "where": uniq([re.sub(r"^.*?/pkg/", "pkg/", w) for _, w in lib])[:4],
+                    "funcs": uniq([f.split("/")[-1] for f, _ in lib])[:4], "accesses": acc[:2]})
     m = re.search(r"fatal error: (concurrent map [a-z ]+)", stderr)
     if m:
         frames = re.findall(r"(?m)^(\S+)\(.*\)\n\s+(\S+?/pkg/\S+?\.go:\d+)", stderr)
@@ -281,8 +294,10 @@ def run(tier):
             static = common.stage_gotables()
             common.stage_harness()
             tabs, _ = gen10.emit_metrics(static)
+            gt, _ = gen10.emit_globals(static)
             ok_inst, ok_props, _, logs = common.coq_stage(
-                rp, ["theories/Inst/Inst_C10.vo", "theories/Proofs/MetricsP.vo"], "theories/Props/C10.v", PROPS, inst_names=INST)
+                rp, ["theories/Inst/Inst_C10.vo", "theories/Proofs/MetricsP.vo", "theories/Proofs/ConcP.vo", "theories/Proofs/FootprintP.vo"],
+                "theories/Props/C10.v", PROPS, inst_names=INST)
             common.stage_harness(race=True)
     except common.StageError as e:
         return common.stage_fail(rp, e)
@@ -304,7 +319,7 @@ def run(tier):
                 "role": role, "where": s["pos"], "defect": d, "translated_section": s}
         w = witness_search(tabs, pkg, p, s, role) if s["kind"] == "rmw" and ok_inst is not None else None
         found = None
-        if w and pkg == "pkg/metrics" and p["func"] == "RecordTokenization":
+        if w and pkg == "pkg/metrics" and p["func"] == "RecordTokenization" and role in ("RMax", "RMin"):
             # the model's witness schedule as a real two-goroutine attempt (barrier-released, many rounds)
             base["model_witness"] = w
             for attempt in range(3 if quick else 10):
@@ -315,7 +330,7 @@ def run(tier):
                     found = {"mode": "rounds", "n": 2, "values": vals, "rounds": res["rounds"], "seed": common.seed() + attempt,
                              "failed_rounds": res["failed_rounds"], "fail_count": res["fail_count"], "first": res["first"][:1]}
                     break
-        if not found and pkg == "pkg/metrics" and p["func"] == "RecordTokenization":
+        if not found:
             for n in (2, 4, max(2, nc // 2)):
                 res, _ = run_rounds(n, 20000 if quick else 200000, common.seed())
                 evals += 1
@@ -331,7 +346,57 @@ def run(tier):
             if w:
                 base["model_witness"] = w
         rp.violation(base, "shape_" + name, no_input=not found)
-    if not ok_inst and not defects:
+    # ---- footprint table of package-level state
+    bad_cells, known_cells = gen10.unprotected_pairs(gt)
+    classes = {}
+    for c in gt["cells"]:
+        k = gt["info"].get(c, {}).get("class", "?")
+        classes[k] = classes.get(k, 0) + 1
+    written = sorted({a["cell"] for a in gt["acc"] if a["write"] and not a["init"] and a["kind"] in ("plain", "escape")})
+    rp.cov["footprint"] = {"cells": len(gt["cells"]), "access_sites": len(gt["acc"]), "distinct_site_descriptions": len(gt["rows"]), "cell_classes": classes,
+                           "cells_written_outside_init_by_plain_stores": {c: sorted({h for a in gt["acc"] if a["cell"] == c and a["write"] and not a["init"] for h in (a["held"] or ["once:" + a.get("once", "")])}) for c in written},
+                           "escapes_to_external_functions": sorted({"%s -> %s" % (a["cell"], a.get("callee")) for a in gt["acc"] if a["kind"] == "escape"}),
+                           "notes": static.get("access_notes") or []}
+    for k, cell in gt["known"]:
+        if cell in known_cells:
+            rp.known(k["key"], k["what"])
+        else:
+            rp.cov["notes"].append("stale known finding (cell is protected now): " + k["key"])
+    for k, cell in gt["stale"]:
+        rp.cov["notes"].append("stale known finding (cell no longer exists): " + k["key"])
+    race_hits = {}
+    for cell, pairs in sorted(bad_cells.items()):
+        a, b = pairs[0]
+        wa = [x for x in gt["where"][a]][:3]
+        wb = [x for x in gt["where"][b]][:3]
+        pkgc = cell.split(".")[0]
+        base = {"kind": "table-gap", "theorem": "Inst_C10.globals_ok", "cell": cell, "class": gt["info"].get(cell, {}).get("class"),
+                "type": gt["info"].get(cell, {}).get("type"),
+                "access_1": {"write": a[1], "kind": a[2], "held": list(a[3]), "once": a[4], "sites": [{"func": x["func"], "pos": x["pos"]} for x in wa]},
+                "access_2": {"write": b[1], "kind": b[2], "held": list(b[3]), "once": b[4], "sites": [{"func": x["func"], "pos": x["pos"]} for x in wb]},
+                "unprotected_pairs": len(pairs)}
+        # aim the race detector at it: hammer the operations that reach the package
+        ops = PKG_OPS.get(pkgc)
+        files = {x["pos"].split(":")[0] for x in wa + wb}
+        found = None
+        inputs_t = workload(random.Random(common.seed()), "quick")[:30]
+        for n in (4, nc):
+            rc, res, races, err = run_mix(n, 300, common.seed() + n, inputs_t, ops=ops)
+            evals += 1
+            hit = [r for r in races if any(w.split(":")[0] in files for w in r["where"])]
+            if hit:
+                found = {"mode": "mix", "n": n, "ops_per_g": 300, "seed": common.seed() + n, "inputs": inputs_t, "ops": ops, "report": hit[0]}
+                race_hits[cell] = hit[0]
+                break
+        if found:
+            base.update(found)
+            base["explanation"] = "unsynchronised access to package-level state %s — %s reported at %s while %d goroutines ran %s" % (
+                cell, found["report"]["kind"], ", ".join(found["report"]["where"][:2]), found["n"], ops or "all operations")
+        else:
+            base["explanation"] = ("package-level state %s is accessed without a common mutex / Once / atomic operation (%s at %s vs %s at %s): the footprint instance lemma no longer holds" % (
+                cell, "write" if a[1] else "read", wa[0]["pos"] if wa else "?", "write" if b[1] else "read", wb[0]["pos"] if wb else "?"))
+        rp.violation(base, "footprint_" + re.sub(r"\W+", "_", cell), no_input=not found)
+    if not ok_inst and not defects and not bad_cells:
         rp.violation({"kind": "proof", "theorem": "Inst_C10", "log": logs["inst"][-3000:]}, "inst_c10", no_input=True)
     if ok_inst and not ok_props:
         rp.violation({"kind": "proof", "theorem": "Props/C10.v", "log": logs["props"][-3000:]}, "props_c10", no_input=True)
@@ -370,7 +435,11 @@ def run(tier):
         res, err = run_rounds(n, r, common.seed() + n)
         evals += 1
         if res is None:
-            rp.violation({"kind": "harness", "mode": "rounds", "n": n, "detail": (err or "")[-2000:]}, "rounds_crash_n%d" % n, no_input=True)
+            fatal = parse_races(err or "")
+            if not any("rounds_crash" in v for v in rp.violations):
+                rp.violation({"kind": "crash", "mode": "rounds", "n": n, "rounds": r, "seed": common.seed() + n, "report": fatal[:2], "stderr": (err or "")[:1500],
+                              "explanation": "the process died during barrier-released concurrent recordings (%s)" % (fatal[0]["kind"] + " at " + ", ".join(fatal[0]["where"][:2]) if fatal else "see stderr")},
+                             "rounds_crash_n%d" % n)
             continue
         rounds_done += res["rounds"]
         rounds_samples.append({"n": n, "rounds": res["rounds"], "failed_rounds": res["failed_rounds"], "ms": res["ms"]})
@@ -397,6 +466,8 @@ def run(tier):
             if sig in seen:
                 continue
             seen.add(sig)
+            if any(r["where"][:1] == h["where"][:1] for h in race_hits.values()):
+                continue
             hit = [x for x in kf if x["status"] == "known" and x["signature"].get("kind") == "race" and any(x["signature"].get("where", "#") in w for w in r["where"])]
             if hit:
                 rp.known(hit[0]["key"], hit[0]["what"])
